@@ -558,7 +558,8 @@ def gfortran_stage(chk, cases, dist, limit=30):
                 g["clean"] += 1
             elif not rel:
                 g["other_errors"] += 1
-            elif any(roles_shared(i) for i in case["invokes"]) and all("Duplicate symbol" in m for _, m in rel):
+            elif any(roles_shared(i) for i in case["invokes"]) and any("Duplicate symbol" in m for _, m in rel):
+                # known class; gfortran rejects the SUBROUTINE statement, the other messages are its consequences
                 g["known_class"] += 1
             else:
                 chk.violation(payload_of(case, "gfortran", "; ".join(f"{l}: {m}" for l, m in rel[:4])))
